@@ -261,6 +261,8 @@ def r3(ctx, F, bs):
             pushes = sorted({o.bb for o in os_ if o.kind == 'mutcall' and o.key.split('::')[-1] in ('push', 'push_str')})
             base = {o for o in fl.origins(nop) if o.kind != 'comb'}
             searched = sorted({str(o.key).split('::')[-1] for o in base if o.kind == 'call' and str(o.key).startswith('std::iter::Iterator::')})
+            if not searched and chosen_by_bounded_search(fl, nop):
+                searched = ['bounded search with a fallback name']
             if searched:
                 # `(0..).map(name).find(free)`: the name is what an iterator search returned - the template is not read through it
                 unknown.append('the name is the result of an iterator search (%s)' % ', '.join(searched))
